@@ -751,6 +751,38 @@ def pair_scenarios():
     return out
 
 
+def mutant_scenarios(rng, n):
+    """Scenarios for the sensitivity runs: every feature present, but no two pending queries of one misc
+    command (so that the unmutated code passes them whether or not the one-shot defect is repaired)."""
+    out = []
+    for i in range(n):
+        r = random.Random(rng.randrange(1 << 60))
+        params = [P_(0x09, group=1), P_(0x06, group=1), P_(r.choice(TYPES), pers=True, group=2),
+                  P_(r.choice([0x00, 0x01, 0x02, 0x03]), group=2), P_(r.choice(TYPES), ro=True, group=1)]
+        for p in params:
+            p['init'], p['default'] = rand_typed(p['type'], r), rand_typed(p['type'], r)
+        lo3, hi3 = int_range(params[3]['type'])
+        pool = [['set', 1, ival(r.choice([40000, 65535, 32768, 7]))], ['set', 1, ival(r.choice([65536, -1, 70000]))],
+                ['set', 2, fval(r.choice([1.75, 2.5, -3.25, 1e-3, 7.7]))], ['set', 2, fval(r.choice([1e39, -1e39]))],
+                ['set', 4, ival(r.choice([lo3, hi3, -1, 5]))], ['set', 4, ival(r.choice([lo3 - 1, hi3 + 1]))],
+                ['set', 5, ival(1)], ['set', 0, ival(1)], ['read', 1, None], ['read', 2, None], ['read', 4, None],
+                ['read', 5, None], ['get', 1, None], ['get', 4, None], ['set', 1, ival(r.randint(0, 65535))],
+                ['set', 4, ival(r.randint(lo3, hi3))], ['read', 1, None], ['set', 1, ival(r.randint(32768, 65535))]]
+        misc = [[k, 3, None] for k in ('store', 'getstate', 'clear', 'getdefault')]
+        r.shuffle(pool)
+        r.shuffle(misc)
+        ops = pool[:r.randint(5, 9)] + misc[:r.randint(0, 2)]
+        r.shuffle(ops)
+        nu = r.choice([2, 3])
+        users = [ops[k::nu] for k in range(nu)]
+        notifs = [[q, rand_typed(params[q - 1]['type'], r)] for q in [r.choice([1, 2, 4, 5]) for _ in range(r.randint(1, 3))]]
+        out.append({'params': params, 'updcbs': [[1, 'param', 1], [2, 'group', 1], [3, 'all', 0], [4, 'param', 4]],
+                    'users': users, 'notifs': notifs,
+                    'policy': [r.choice(['slowdev', 'slowdev', 'burst', 'random', 'pct', 'slowdisp']), r.randrange(1 << 30)],
+                    'crc': 99})
+    return out
+
+
 WITNESS = {'params': [P_(0x08, pers=True, init=[6], default=[5]), P_(0x08, pers=True, init=[7], default=[9])],
            'updcbs': [[1, 'all', 0]], 'users': [[['getstate', 1, None], ['getstate', 2, None]]], 'notifs': [],
            'policy': ['burst', 0], 'crc': 1}
@@ -808,20 +840,25 @@ def spec_projection(st):
             'cache': [list(x) for x in st['cache']]}
 
 
-def _replay_job(beh):
+def compact_behaviour(beh):
     sc, acts = scenario_from_behaviour(beh)
+    return {'sc': sc, 'acts': acts, 'labels': [b[0] for b in beh[1:]],
+            'projs': [spec_projection(b[1]) for b in beh[1:]]}
+
+
+def _replay_job(cb):
+    sc, acts = cb['sc'], cb['acts']
     t = execute(sc, want_projection=True)
     steps = [e for e in t['ev'] if e['e'] == 'step']
     n = len(acts)
     ok, first = 0, None
     for i in range(n):
-        good = i < len(steps) and steps[i]['a'] == acts[i] and i < len(t['proj']) and \
-            t['proj'][i] == spec_projection(beh[i + 1][1])
+        good = i < len(steps) and steps[i]['a'] == acts[i] and i < len(t['proj']) and t['proj'][i] == cb['projs'][i]
         if good:
             ok += 1
         elif first is None:
-            first = {'step': i, 'label': beh[i + 1][0], 'real_action': steps[i]['a'] if i < len(steps) else None,
-                     'real': t['proj'][i] if i < len(t['proj']) else None, 'spec': spec_projection(beh[i + 1][1])}
+            first = {'step': i, 'label': cb['labels'][i], 'real_action': steps[i]['a'] if i < len(steps) else None,
+                     'real': t['proj'][i] if i < len(t['proj']) else None, 'spec': cb['projs'][i]}
             break
     del t['proj']
     return {'trace': t, 'sc': sc, 'steps': n, 'matched': ok, 'first': first, 'drift': t['detail']['drift']}
@@ -1133,15 +1170,25 @@ def _run_tlc_job(job):
     return job, tlc.expect_violation('MC_ParamProto.tla', cfg, workers=workers, timeout=900)
 
 
-def _tlc_helper(tier, conn):
-    """runs the design-spec TLC jobs concurrently (own process: the parent stays single-threaded)"""
+def _sim_job(args):
+    sim_cfg, nsim, seed = args
+    rs, behs = tlc.simulate('MC_ParamProto.tla', sim_cfg, num=nsim, depth=70, seed=seed, timeout=2400)
+    rs.output = rs.output[-1500:]
+    return ('sim', sim_cfg, nsim), (rs, [compact_behaviour(b) for b in behs if len(b) > 2])
+
+
+def _tlc_helper(tier, sim_args, conn):
+    """runs the design-spec TLC jobs and the simulation concurrently (own process: the parent stays
+    single-threaded and forks its worker pools safely)"""
     from concurrent.futures import ThreadPoolExecutor
     try:
         with ThreadPoolExecutor(max_workers=3) as ex:
+            fsim = ex.submit(_sim_job, sim_args)
             res = list(ex.map(_run_tlc_job, _tlc_jobs(tier)))
+            sim = fsim.result()
         for (_job, r) in res:
-            r.output = r.output[-2000:]
-        conn.send(res)
+            r.output = r.output[-1500:]
+        conn.send((res, sim))
     except Exception as e:           # reported by the parent as a machinery failure
         conn.send('TLC job failed: %s' % str(e)[-3000:])
     finally:
@@ -1199,26 +1246,35 @@ def main(tier, seed, replay=None):
         out.samples = [{'events': t['ev'][:40]}]
         return out.finish()
 
-    # 1. design spec: exhaustive checks; every bug configuration must be refuted
+    # 1. design spec: exhaustive checks, every bug configuration must be refuted, and the simulation that
+    #    feeds step 2 -- all in a helper process while this process drives the real code
+    variant = detect_variant()
+    trace_cfg, sim_cfg = VARIANT_CFG[variant]
+    out.extra['code_variant_detected'] = variant
+    lap('variant probe')
+    nsim = 100 if tier == 'quick' else 1500
     import multiprocessing as mp
     ctx = mp.get_context('fork')
     pipe_r, pipe_w = ctx.Pipe(duplex=False)
-    helper = ctx.Process(target=_tlc_helper, args=(tier, pipe_w))
+    helper = ctx.Process(target=_tlc_helper, args=(tier, (sim_cfg, nsim, seed % 100000), pipe_w))
     helper.start()
     pipe_w.close()
     try:
-        variant = detect_variant()
-        lap('variant probe')
-        trace_cfg, sim_cfg = VARIANT_CFG[variant]
-        out.extra['code_variant_detected'] = variant
-        # 2. spec -> code: behaviours of the design spec (variant the code implements) replayed step by step
-        nsim = 150 if tier == 'quick' else 1500
-        rs, behs = tlc.simulate('MC_ParamProto.tla', sim_cfg, num=nsim, depth=70, seed=seed % 100000, timeout=1500)
-        out.add_tlc('%s (-simulate num=%d depth=70)' % (sim_cfg, nsim), rs)
-        behs = [b for b in behs if len(b) > 2]
-        lap('tlc simulate')
-        reps = common.pmap(_replay_job, behs, init=_init, maxtasks=300)
-        lap('replay behaviours')
+        # 3a. code -> spec: enumerations + seeded random programs executed on the real code
+        msc = mutant_scenarios(rng, 48 if tier == 'quick' else 200)
+        pairs = pair_scenarios()
+        if tier == 'quick':
+            pairs = pairs[:len(pairs) // 3]
+        scs = codec_scenarios(rng) + pairs + msc
+        nrand = 500 if tier == 'quick' else 24000
+        for i in range(nrand):
+            scs.append(gen_scenario(random.Random(rng.randrange(1 << 60)), big=(i % 4 == 0)))
+        traces = run_scenarios(scs)
+        lap('execute scenarios')
+        # 4a. in-memory mutants on the sensitivity scenarios
+        mnames = sorted(MUTANTS)
+        mtraces = common.pmap(_exec_job, [(sc, name) for name in mnames for sc in msc], init=_init, maxtasks=400)
+        lap('execute mutants')
         res = pipe_r.recv()
     finally:
         helper.join(10)
@@ -1226,25 +1282,24 @@ def main(tier, seed, replay=None):
             helper.terminate()
     if isinstance(res, str):
         raise tlc.TLCError(res)
-    for (job, r) in res:
+    lap('wait for design-spec TLC')
+    for (job, r) in res[0]:
         if job[0] == 'check':
             out.add_tlc(job[1], r)
         else:
             out.sensitivity['spec:' + job[1][len('MC_ParamProto_bug_'):-4]] = \
                 'refuted (%s) after %d states' % (r.violated, r.distinct)
+    # 2. spec -> code: behaviours of the design spec (the variant the code implements) replayed step by step
+    rs, behs = res[1][1]
+    out.add_tlc('%s (-simulate num=%d depth=70)' % (sim_cfg, nsim), rs)
+    reps = common.pmap(_replay_job, behs, init=_init, maxtasks=300)
+    lap('replay behaviours')
     out.conformance['spec_to_code'] = {
         'behaviours': len(reps), 'fully_matched': sum(1 for r in reps if r['matched'] == r['steps'] and not r['drift']),
         'steps': sum(r['steps'] for r in reps), 'steps_matched': sum(r['matched'] for r in reps),
         'first_mismatches': [r['first'] for r in reps if r['first']][:3]}
 
-    # 3. code -> spec: enumerations + seeded random, judged by the monitor (TLC, ParamProtoProps)
-    scs = codec_scenarios(rng) + pair_scenarios()
-    nrand = 1200 if tier == 'quick' else 24000
-    for i in range(nrand):
-        scs.append(gen_scenario(random.Random(rng.randrange(1 << 60)), big=(i % 4 == 0)))
-    lap('wait for design-spec TLC')
-    traces = run_scenarios(scs)
-    lap('execute scenarios')
+    # 3b. every trace judged by the monitor (TLC, ParamProtoProps) and explained by the design spec
     all_traces = [r['trace'] for r in reps] + traces
     all_scs = [r['sc'] for r in reps] + scs
     bad, drift = judge(out, all_traces, 'real code', trace_cfg)
@@ -1281,23 +1336,13 @@ def main(tier, seed, replay=None):
         out.samples.append({'rejected': clause, 'users': by_id[t['id']]['users'],
                             'events': [e for e in t['ev'][max(0, at - 12):at] if e['e'] != 'step']})
 
-    # 4. sensitivity: in-memory mutants on scenarios the unmutated code passes; corrupted traces
-    #    (all judged by the monitor in one TLC round)
+    # 4b. sensitivity: the mutants' traces and corrupted traces judged by the monitor (one TLC round)
     bad_ids = {b[0]['id'] for b in bad}
-    passing = [sc for t, sc in zip(all_traces, all_scs) if t['id'] not in bad_ids]
-    per_kind = {}
-    for sc in passing:
-        per_kind.setdefault(sc['policy'][0], []).append(sc)
-    quota = 40 if tier == 'quick' else 160
-    sub = []
-    for kind in sorted(per_kind):
-        lst = per_kind[kind]
-        sub += lst[::max(1, len(lst) // quota)][:quota]
-    mnames = sorted(MUTANTS)
-    mtraces = run_scenarios([sc for name in mnames for sc in sub], mutant=None) if False else []
-    jobs = [(sc, name) for name in mnames for sc in sub]
-    mtraces = common.pmap(_exec_job, jobs, init=_init, maxtasks=400)
-    lap('execute mutants')
+    msc_ids = {id(sc) for sc in msc}
+    msc_failed = [t['id'] for t, sc in zip(all_traces, all_scs) if id(sc) in msc_ids and t['id'] in bad_ids]
+    if msc_failed:
+        out.extra['sensitivity_scenarios_failing_unmutated'] = len(msc_failed)
+    sub = msc
     good = [t for t in all_traces if t['id'] not in bad_ids]
     corrupt = []
     t0 = copy.deepcopy(next(t for t in good if any(e['e'] == 'cb' for e in t['ev'])))
